@@ -80,6 +80,11 @@ def run(ck: Checker, prog: Program, tier: str):
     with ck.borrow(c06, "C12.R7+"):
         ck.guard(c06._entry_state, ck, prog, prog.func(c06.OUTER))
     ck.guard(_writers_truncate, ck, prog)
+    # the object read back equals the object written only if asking the object for a statistic / a peak does not change it
+    # (the writer and every caller before it do): accessors are read-only (rule of C20)
+    from . import c20
+    with ck.borrow(c20, "C12.R6+"):
+        ck.guard(c20._read_only, ck, prog)
 
 
 def _meta_private(ck: Checker, prog: Program):
